@@ -234,6 +234,9 @@ class Interp:
                         k,
                         {
                             "ModuleNotFoundError": k & {"str_ok"},
+                            # a module that is found but fails while importing (missing name in a dependency,
+                            # circular import, platform guard) "cannot be imported" just as much
+                            "ImportError": k & {"str_ok"},
                             "ValueError": k & {"str_empty"},
                             "TypeError": k & {"str_dot"},
                             "AttributeError": k - STR,
